@@ -1053,23 +1053,47 @@ func c37Crafted() (out []struct {
 	add("OPT-option-past-rdlength", append(hdr(0, 1), 0, 0, 41, 16, 0, 0, 0, 0, 0, 0, 5, 0, 10, 0, 4, 1, 2, 3, 4))
 	// SVCB with a compressed target and 65535 bytes of RDATA: the target expands when re-packed.
 	// The pointed-at name (3 labels of 63 octets) sits inside the parameter value.
-	sv := append(hdr(1, 0), 0, 0, 64, 0, 1, 0, 0, 0, 60, 0xff, 0xff)
-	rd := len(sv)
-	vlen := 65535 - 8
-	nameAt := rd + 8 + 100
-	sv = append(sv, 0, 1, 0xC0|byte(nameAt>>8), byte(nameAt)) // priority, pointer to nameAt
-	sv = append(sv, 0, 7, byte(vlen>>8), byte(vlen))              // key 7, value length
-	sv = append(sv, make([]byte, vlen)...)
-	at := nameAt
-	for i := 0; i < 3; i++ {
-		sv[at] = 63
-		copy(sv[at+1:], bytes.Repeat([]byte{'x'}, 63))
-		at += 64
+	// (added after seeded change C37l: the pointed-at name is also the root and a one-octet label, alone and after a
+	// literal label, because a length comparison in place of the label walk tells those apart from longer suffixes)
+	for _, suffix := range []string{"xxx63", "root", "one-octet"} {
+		for _, lit := range []int{0, 1, 5} {
+			sv := append(hdr(1, 0), 0, 0, 64, 0, 1, 0, 0, 0, 60, 0xff, 0xff)
+			rd := len(sv)
+			tlen := 2
+			if lit > 0 {
+				tlen += 1 + lit
+			}
+			vlen := 65535 - 2 - tlen - 4
+			nameAt := rd + 2 + tlen + 4 + 100
+			sv = append(sv, 0, 1) // priority
+			if lit > 0 {
+				sv = append(sv, byte(lit))
+				sv = append(sv, bytes.Repeat([]byte{'t'}, lit)...)
+			}
+			sv = append(sv, 0xC0|byte(nameAt>>8), byte(nameAt)) // pointer to nameAt
+			sv = append(sv, 0, 7, byte(vlen>>8), byte(vlen))    // key 7, value length
+			sv = append(sv, make([]byte, vlen)...)
+			at := nameAt
+			switch suffix {
+			case "xxx63":
+				for i := 0; i < 3; i++ {
+					sv[at] = 63
+					copy(sv[at+1:], bytes.Repeat([]byte{'x'}, 63))
+					at += 64
+				}
+			case "one-octet":
+				sv[at], sv[at+1] = 1, 'a'
+			}
+			name := "compressed-target-rdata-65535"
+			if suffix != "xxx63" || lit != 0 {
+				name += fmt.Sprintf("-%s-lit%d", suffix, lit)
+			}
+			add("SVCB-"+name, sv)
+			hs := append([]byte(nil), sv...)
+			hs[14] = 65 // same record as type HTTPS
+			add("HTTPS-"+name, hs)
+		}
 	}
-	add("SVCB-compressed-target-rdata-65535", sv)
-	hs := append([]byte(nil), sv...)
-	hs[14] = 65 // same record as type HTTPS
-	add("HTTPS-compressed-target-rdata-65535", hs)
 	return
 }
 
